@@ -466,8 +466,11 @@ fn configs(tier: Tier) -> Vec<Cfg> {
     let sorts = [false, true];
     let styles_out: Vec<(usize, bool)> = if thorough { vec![(0, false), (1, false), (2, false), (0, true), (1, true), (2, true), (3, true)] } else { vec![(0, false), (2, true), (3, true)] };
     // sorted permutations of 4 files: 0 = identity, 18 = [3,0,1,2] (the two-ECU file first), 17 = [2,3,1,0]
-    let perms: Vec<usize> = if thorough { (0..24).collect() } else { vec![0, 18] };
+    // (thorough: 6 of the 24 orders in the full option product - identity, reversal and four that move each file to the
+    // front; all 24 orders would need twice the time cap. The duplicate-file sub-product below uses further orders.)
+    let perms: Vec<usize> = if thorough { vec![0, 7, 12, 17, 18, 23] } else { vec![0, 18] };
     let mut v = vec![];
+    let mut main = vec![];
     for b in &bs {
         for e in &es {
             for lcs in &lcss {
@@ -476,7 +479,7 @@ fn configs(tier: Tier) -> Vec<Cfg> {
                         for &sort in &sorts {
                             for &(style, out) in &styles_out {
                                 for &perm in &perms {
-                                    v.push(Cfg { b: *b, e: *e, lcs: lcs.clone(), eac, ffile, sort, style, out, perm, dup: false, stale: false });
+                                    main.push(Cfg { b: *b, e: *e, lcs: lcs.clone(), eac, ffile, sort, style, out, perm, dup: false, stale: false });
                                 }
                             }
                         }
@@ -510,8 +513,10 @@ fn configs(tier: Tier) -> Vec<Cfg> {
         }
     }
     // the -o target exists already (a second export to the same path): every selecting option, no filter files
-    let stale: Vec<Cfg> = v.iter().filter(|c| c.out && c.ffile == 0 && c.eac == 0 && c.perm == 0 && !c.dup).map(|c| Cfg { stale: true, ..c.clone() }).collect();
+    let stale: Vec<Cfg> = main.iter().chain(v.iter()).filter(|c| c.out && c.ffile == 0 && c.eac == 0 && c.perm == 0 && !c.dup).map(|c| Cfg { stale: true, ..c.clone() }).collect();
     v.extend(stale);
+    // the small sub-products first, the full product last (it is the part a time cap may cut)
+    v.extend(main);
     v
 }
 
@@ -520,7 +525,7 @@ impl Prop for C14 {
         Meta {
             id: "C14",
             level: "exploration",
-            rule: "full product of adlt convert options against the binary built from the working tree: -b {-,0,3} x -e {-,5,100} x --lcs {-,{1},{2},{1,3},{3,1},{2,3,1,2}} x --eac {-,ECU1,:AP1,'ECU2:AP2:CT2,ECU1::CT1'} x -f {-, DLF file (positive APID + negative CTID), dlt-convert list, DLF file with an additional enabled marker and event filter} x --sort x style/-o {-a,-x,-s with and without -o, -o alone} x every permutation of four generated input files (ECU1 with two boots and garbage between messages, ECU2, a continuation file of ECU1, a file carrying both ECUs interleaved in time) + the first file named twice + every -o combination without filter options once more onto a target path that holds a longer, older export (quick: a 2-3 valued sub-product). Oracle computed in the harness from the generated messages: merged index order = global reception order, lifecycle ids = library detector on the merged stream renumbered as a fresh process counts, filters by their stated meaning (--eac parsed independently); printed indices = expected selection, each once, ascending when unsorted, ascii lines show the message; the -o file re-reads (library iterator, nothing skipped) to exactly the selected messages; identical for every file-argument order. Non-trivial = any selecting option set.".into(),
+            rule: "full product of adlt convert options against the binary built from the working tree: -b {-,0,3} x -e {-,5,100} x --lcs {-,{1},{2},{1,3},{3,1},{2,3,1,2}} x --eac {-,ECU1,:AP1,'ECU2:AP2:CT2,ECU1::CT1'} x -f {-, DLF file (positive APID + negative CTID), dlt-convert list, DLF file with an additional enabled marker and event filter} x --sort x style/-o {-a,-x,-s with and without -o, -o alone} x file orders (quick 2, thorough 6 of the 24 permutations) of four generated input files (ECU1 with two boots and garbage between messages, ECU2, a continuation file of ECU1, a file carrying both ECUs interleaved in time) + the first file named twice + every -o combination without filter options once more onto a target path that holds a longer, older export (quick: a 2-3 valued sub-product). Oracle computed in the harness from the generated messages: merged index order = global reception order, lifecycle ids = library detector on the merged stream renumbered as a fresh process counts, filters by their stated meaning (--eac parsed independently); printed indices = expected selection, each once, ascending when unsorted, ascii lines show the message; the -o file re-reads (library iterator, nothing skipped) to exactly the selected messages; identical for every file-argument order. Non-trivial = any selecting option set.".into(),
             assumptions: vec!["one generated input set (20 messages, 4 files); lifecycle ids of the CLI are assumed to count from 1 in creation order in a fresh process".into()],
             budget_s: (150, 1500),
             workers: 1,
